@@ -1,5 +1,6 @@
 /- C08 helper lemmas: the machine run on a whole stream computes what the strict batch reader computes. -/
 import TornadoModel.C08.Seg
+import TornadoModel.C06.Lemmas
 namespace TornadoModel.C08
 open TornadoModel.C06
 
@@ -212,5 +213,347 @@ theorem chunks_agree (cfg : Cfg) (eof : Bool) (m : Msg) : ∀ (f total : Nat) (a
                       · left; exact hx
                     simp [step, this]
                   exact fails_of_step hs (fails_of_step hs1 (fails_of_step hs2 (fails_done _ _ _ _)))
+
+/-! ### the body, by framing -/
+
+/-- the phase `onHead` enters once `_read_body` has decided -/
+def startPhase (m : Msg) : Framing → Phase
+  | .fixed 0 => .done (.msg m [])
+  | .fixed n => .fixed m n []
+  | .chunked => .chunkSize m 0 []
+  | .close => .untilClose m []
+
+theorem body_agree (cfg : Cfg) (eof : Bool) (m : Msg) (fr : Framing) (rest : Bytes) :
+    match Spec.body cfg.maxBody eof fr rest with
+    | some raw => atEnd cfg eof (drainFull cfg (startPhase m fr) rest).1 = .msg m raw
+    | none => Fails cfg eof (startPhase m fr) rest := by
+  cases fr with
+  | fixed n =>
+    cases n with
+    | zero => simp [Spec.body, startPhase, drainFull_done, atEnd]
+    | succ n =>
+      by_cases hk : n + 1 ≤ rest.length
+      · have hre : rest ≠ [] := by intro h0; subst h0; simp at hk
+        simp only [Spec.body, if_pos hk, startPhase]
+        rw [drainFull_some (step_fixed_ge cfg m (n + 1) [] rest hre (by omega) hk), drainFull_done]
+        simp [atEnd]
+      · simp only [Spec.body, if_neg hk, startPhase]
+        by_cases hre : rest = []
+        · subst hre
+          exact fails_pending trivial (by simp [step])
+        · refine fails_of_step (step_fixed_lt cfg m (n + 1) [] rest hre (by omega)) ?_
+          exact fails_pending trivial (by simp [step])
+  | chunked =>
+    have := chunks_agree cfg eof m (rest.length + 1) 0 [] rest (Nat.le_refl _)
+    simp only [Spec.body, startPhase]
+    cases hc : Spec.chunks cfg.maxBody (rest.length + 1) 0 rest with
+    | some body =>
+      rw [hc] at this
+      simp only at this ⊢
+      rw [this]; simp [atEnd]
+    | none =>
+      rw [hc] at this
+      exact this
+  | close =>
+    simp only [Spec.body, startPhase]
+    by_cases hre : rest = []
+    · subst hre
+      rw [show Fails cfg eof (.untilClose m []) [] = ∃ k, atEnd cfg eof (drainFull cfg (.untilClose m []) []).1 = .fail k
+        from rfl]
+      rw [drainFull_none (by simp [step] : step cfg (.untilClose m []) [] = none)]
+      cases eof <;> simp [atEnd]
+    · rw [show Fails cfg eof (.untilClose m []) rest =
+        ∃ k, atEnd cfg eof (drainFull cfg (.untilClose m []) rest).1 = .fail k from rfl]
+      rw [drainFull_some (step_untilClose cfg m [] rest hre),
+        drainFull_none (by simp [step] : step cfg (.untilClose m ([] ++ rest)) [] = none)]
+      cases eof
+      · simp [atEnd]
+      · by_cases hl : rest.length ≤ cfg.maxBody
+        · have : ¬ rest.length > cfg.maxBody := by omega
+          simp [atEnd, hl, this]
+        · have : rest.length > cfg.maxBody := by omega
+          simp [atEnd, hl, this]
+
+/-! ### presentation -/
+
+theorem assemble_present (cfg : Cfg) (Z : Bytes → GzRes) (m : Msg) (raw : Bytes)
+    (h : m.gz = false ∨ raw = [] ∨ ((Z raw).st ≠ .trunc ∧ (Z raw).st ≠ .trail)) :
+    (assemble cfg Z (.msg m raw)).toSpec = Spec.present cfg Z m.code m.reason m.hdrs m.gz raw := by
+  by_cases hg : (m.gz && !raw.isEmpty) = true
+  · have hz : (Z raw).st ≠ .trunc ∧ (Z raw).st ≠ .trail := by
+      rcases h with h | h | h
+      · simp [h] at hg
+      · simp [h] at hg
+      · exact h
+    simp only [assemble, Spec.present, hg, ↓reduceIte]
+    cases hst : (Z raw).st with
+    | complete =>
+      by_cases hl : (Z raw).out.length > cfg.maxBody
+      · have : ¬ (Z raw).out.length ≤ cfg.maxBody := by omega
+        simp [hl, this, Res.toSpec]
+      · have : (Z raw).out.length ≤ cfg.maxBody := by omega
+        simp [hl, this, Res.toSpec]
+    | trunc => exact absurd hst hz.1
+    | trail => exact absurd hst hz.2
+    | bad => simp [Res.toSpec]
+    | missing => simp [Res.toSpec]
+  · simp only [assemble, Spec.present, hg]
+    rfl
+
+/-! ### the header block -/
+
+theorem onHead_bad (cfg : Cfg) (gz : Bool) (data : Bytes) (hp : parseHead data = none) :
+    onHead cfg gz data = .done (.fail .timeout) := by
+  simp only [onHead, hp]
+
+theorem onHead_some (cfg : Cfg) (gz : Bool) (data : Bytes) (v : Str) (code : Nat) (reason : Str) (h0 h : Headers)
+    (gzNew : Bool) (hp : parseHead data = some ((v, code, reason), h0))
+    (hg : (if cfg.decompress then gzipRewrite h0 else (h0, false)) = (h, gzNew)) :
+    onHead cfg gz data =
+      if 100 ≤ code && code < 200 then
+        (if contains h sContentLength || contains h sTransferEncoding then .done (.fail .closed)
+         else .head (gz || gzNew))
+      else if cfg.isHead || code = 304 then .done (.msg ⟨code, reason, h, gz || gzNew⟩ [])
+      else match readBody code h cfg.maxBody with
+        | none => .done (.fail .closed)
+        | some (h', fr) => startPhase ⟨code, reason, h', gz || gzNew⟩ fr := by
+  simp only [onHead, hp, hg]
+  split
+  · rfl
+  · split
+    · rfl
+    · cases hr : readBody code h cfg.maxBody with
+      | none => rfl
+      | some hf =>
+        obtain ⟨h', fr⟩ := hf
+        cases fr with
+        | fixed n => cases n <;> rfl
+        | chunked => rfl
+        | close => rfl
+
+/-! ### `gzipRewrite` does not touch the framing headers -/
+
+theorem getItem_asList (h h' : Headers) (n v : Str) (e : getItem h n = .ok (v, h')) : h'.asList = h.asList := by
+  unfold getItem at e
+  simp only at e
+  split at e
+  · cases e; rfl
+  · split at e
+    · cases e; rfl
+    · cases e
+
+theorem add_dget (h h' : Headers) (n v k : Str) (e : add h n v = .ok h') (h1 : k ≠ normalize n)
+    (h2 : k ≠ normalize (normalize n)) : dget k h'.asList = dget k h.asList := by
+  unfold add at e
+  split at e
+  · cases e
+  · split at e
+    · cases e
+    · split at e
+      · cases e
+      · simp only at e
+        split at e
+        · cases e; exact dget_dset_other _ _ _ _ h1
+        · cases e; simp only [setItem]; exact dget_dset_other _ _ _ _ h2
+
+theorem delItem_dget (h h' : Headers) (n k : Str) (e : delItem h n = .ok h') (h1 : k ≠ normalize n) :
+    dget k h'.asList = dget k h.asList := by
+  unfold delItem at e
+  simp only at e
+  split at e
+  · cases e; exact dget_ddel_other _ _ _ h1
+  · cases e
+
+theorem contains_gzipRewrite (h0 : Headers) (name : Str) (h1 : normalize name ≠ normalize sContentEncoding)
+    (h2 : normalize name ≠ normalize sXConsumed) (h3 : normalize name ≠ normalize (normalize sXConsumed)) :
+    contains (gzipRewrite h0).1 name = contains h0 name := by
+  unfold contains dhas
+  congr 1
+  unfold gzipRewrite
+  cases hgi : getItem h0 sContentEncoding with
+  | error _ => rfl
+  | ok vh =>
+    obtain ⟨v, ha⟩ := vh
+    have e1 := getItem_asList h0 ha _ v hgi
+    simp only
+    split
+    · cases had : add ha sXConsumed v with
+      | error _ => simp only; rw [e1]
+      | ok hb =>
+        have e2 := add_dget ha hb sXConsumed v _ had h2 h3
+        simp only
+        cases hde : delItem hb sContentEncoding with
+        | error _ => simp only; rw [e2, e1]
+        | ok hc =>
+          have e3 := delItem_dget hb hc sContentEncoding _ hde h1
+          simp only; rw [e3, e2, e1]
+    · simp only; rw [e1]
+
+theorem contains_gzipRewrite_cl (h0 : Headers) :
+    contains (gzipRewrite h0).1 sContentLength = contains h0 sContentLength :=
+  contains_gzipRewrite h0 _ (by decide) (by decide) (by decide)
+
+theorem contains_gzipRewrite_te (h0 : Headers) :
+    contains (gzipRewrite h0).1 sTransferEncoding = contains h0 sTransferEncoding :=
+  contains_gzipRewrite h0 _ (by decide) (by decide) (by decide)
+
+/-! ### the whole response -/
+
+/-- some interim (1xx) response on the way to the final one carries `Content-Encoding: gzip` while
+    `decompress_response` is on (the decompressor then stays on for the final response: known finding) -/
+def interimGz (cfg : Cfg) : Nat → Bytes → Bool
+  | 0, _ => false
+  | f + 1, s =>
+    match findHeadEnd s with
+    | none => false
+    | some e =>
+      match parseHead (s.take e) with
+      | none => false
+      | some ((_, code, _), h0) =>
+        if 100 ≤ code && code < 200 then (cfg.decompress && (gzipRewrite h0).2) || interimGz cfg f (s.drop e)
+        else false
+
+/-- the decompressor saw exactly one member or rejected the input: none of the two lenient outcomes -/
+def ZOk (g : GzRes) : Prop := g.st ≠ .trunc ∧ g.st ≠ .trail
+
+instance (g : GzRes) : Decidable (ZOk g) := by unfold ZOk; infer_instance
+
+theorem read_agree (cfg : Cfg) (Z : Bytes → GzRes) (eof : Bool) : ∀ (f : Nat) (s : Bytes), s.length + 1 ≤ f →
+    (cfg.decompress = false ∨
+      (interimGz cfg f s = false ∧
+        ∀ m raw, atEnd cfg eof (drainFull cfg (.head false) s).1 = .msg m raw → m.gz = true → raw ≠ [] → ZOk (Z raw))) →
+    (assemble cfg Z (atEnd cfg eof (drainFull cfg (.head false) s).1)).toSpec = Spec.read cfg Z eof f s := by
+  intro f
+  induction f with
+  | zero => intro s h; omega
+  | succ f ih =>
+    intro s hfuel hc
+    cases he : findHeadEnd s with
+    | none =>
+      have hs : step cfg (.head false) s = none := by simp only [step, he]
+      rw [drainFull_none hs]
+      simp only [Spec.read, he]
+      cases eof <;> rfl
+    | some e =>
+      have hb := findHeadEnd_pos_le s e he
+      have hs : step cfg (.head false) s = some (onHead cfg false (s.take e), s.drop e) := by simp only [step, he]
+      cases hp : parseHead (s.take e) with
+      | none =>
+        rw [drainFull_some hs, onHead_bad cfg false _ hp, drainFull_done]
+        simp only [Spec.read, he, hp]
+        rfl
+      | some x =>
+        obtain ⟨⟨v, code, reason⟩, h0⟩ := x
+        cases hg : (if cfg.decompress then gzipRewrite h0 else (h0, false)) with
+        | mk h gzNew =>
+          have hoh := onHead_some cfg false _ v code reason h0 h gzNew hp hg
+          simp only [Bool.false_or] at hoh
+          -- with decompression off nothing is rewritten
+          have hoff : cfg.decompress = false → h = h0 ∧ gzNew = false := by
+            intro hd
+            rw [hd] at hg
+            simp only [Bool.false_eq_true, if_false, Prod.mk.injEq] at hg
+            exact ⟨hg.1.symm, hg.2.symm⟩
+          have hon : cfg.decompress = true → h = (gzipRewrite h0).1 ∧ gzNew = (gzipRewrite h0).2 := by
+            intro hd
+            rw [hd] at hg
+            simp only [if_true] at hg
+            rw [hg]; exact ⟨rfl, rfl⟩
+          by_cases h1xx : (100 ≤ code && code < 200) = true
+          · rw [if_pos h1xx] at hoh
+            have hcl : contains h sContentLength = contains h0 sContentLength := by
+              cases hd : cfg.decompress with
+              | false => rw [(hoff hd).1]
+              | true => rw [(hon hd).1]; exact contains_gzipRewrite_cl h0
+            have hte : contains h sTransferEncoding = contains h0 sTransferEncoding := by
+              cases hd : cfg.decompress with
+              | false => rw [(hoff hd).1]
+              | true => rw [(hon hd).1]; exact contains_gzipRewrite_te h0
+            rw [hcl, hte] at hoh
+            simp only [Spec.read, he, hp, h1xx, if_true]
+            by_cases hct : (contains h0 sContentLength || contains h0 sTransferEncoding) = true
+            · rw [if_pos hct] at hoh
+              rw [if_pos hct, drainFull_some hs, hoh, drainFull_done]
+              rfl
+            · rw [if_neg hct] at hoh
+              rw [if_neg hct]
+              have hgz : gzNew = false := by
+                rcases hc with hd | ⟨hi, _⟩
+                · exact (hoff hd).2
+                · simp only [interimGz, he, hp, h1xx, if_true, Bool.or_eq_false_iff, Bool.and_eq_false_iff] at hi
+                  cases hd : cfg.decompress with
+                  | false => exact (hoff hd).2
+                  | true =>
+                    rw [(hon hd).2]
+                    rcases hi.1 with h' | h'
+                    · rw [hd] at h'; cases h'
+                    · exact h'
+              rw [hgz] at hoh
+              have hdr : drainFull cfg (.head false) s = drainFull cfg (.head false) (s.drop e) := by
+                rw [drainFull_some hs, hoh]
+              rw [hdr]
+              apply ih (s.drop e) (by simp; omega)
+              rcases hc with hd | ⟨hi, hz⟩
+              · exact Or.inl hd
+              · right
+                simp only [interimGz, he, hp, h1xx, if_true, Bool.or_eq_false_iff] at hi
+                refine ⟨hi.2, ?_⟩
+                rw [← hdr]; exact hz
+          · rw [if_neg h1xx] at hoh
+            have hsp : Spec.read cfg Z eof (f + 1) s =
+                if cfg.isHead || code = 304 then Spec.present cfg Z code reason h gzNew []
+                else match readBody code h cfg.maxBody with
+                  | none => none
+                  | some (h', fr) =>
+                    match Spec.body cfg.maxBody eof fr (s.drop e) with
+                    | none => none
+                    | some raw => Spec.present cfg Z code reason h' gzNew raw := by
+              simp only [Spec.read, he, hp, h1xx, hg]
+              rfl
+            rw [hsp]
+            -- the decompressor is only consulted when it is known to be strict here
+            have hzok : ∀ (m : Msg) (raw : Bytes), m.gz = gzNew →
+                atEnd cfg eof (drainFull cfg (.head false) s).1 = .msg m raw →
+                m.gz = false ∨ raw = [] ∨ ((Z raw).st ≠ .trunc ∧ (Z raw).st ≠ .trail) := by
+              intro m raw hmg hat
+              rcases hc with hd | ⟨_, hz⟩
+              · left; rw [hmg]; exact (hoff hd).2
+              · cases hgm : m.gz with
+                | false => exact Or.inl rfl
+                | true =>
+                  by_cases hr : raw = []
+                  · exact Or.inr (Or.inl hr)
+                  · exact Or.inr (Or.inr (hz m raw hat hgm hr))
+            by_cases hh : (cfg.isHead || code = 304) = true
+            · rw [if_pos hh] at hoh
+              rw [if_pos hh, drainFull_some hs, hoh, drainFull_done]
+              exact assemble_present cfg Z ⟨code, reason, h, gzNew⟩ [] (Or.inr (Or.inl rfl))
+            · rw [if_neg hh] at hoh
+              rw [if_neg hh]
+              cases hr : readBody code h cfg.maxBody with
+              | none =>
+                simp only [hr] at hoh
+                rw [drainFull_some hs, hoh, drainFull_done]
+                rfl
+              | some hf =>
+                obtain ⟨h', fr⟩ := hf
+                simp only [hr] at hoh
+                have hdr : drainFull cfg (.head false) s =
+                    drainFull cfg (startPhase ⟨code, reason, h', gzNew⟩ fr) (s.drop e) := by
+                  rw [drainFull_some hs, hoh]
+                have hba := body_agree cfg eof ⟨code, reason, h', gzNew⟩ fr (s.drop e)
+                simp only
+                cases hbody : Spec.body cfg.maxBody eof fr (s.drop e) with
+                | none =>
+                  rw [hbody] at hba
+                  obtain ⟨k, hk⟩ := hba
+                  rw [hdr, hk]
+                  rfl
+                | some raw =>
+                  rw [hbody] at hba
+                  simp only at hba
+                  have := hzok ⟨code, reason, h', gzNew⟩ raw rfl (by rw [hdr]; exact hba)
+                  rw [hdr, hba]
+                  exact assemble_present cfg Z ⟨code, reason, h', gzNew⟩ raw this
 
 end TornadoModel.C08
